@@ -55,6 +55,16 @@ def r16_2(ck: Check) -> None:
             ck.violated("R16.2", construct, "documentation says %s, params.py folds to %s" % (doc_val, code_val), path)
 
 
+class _Raised(Exception):
+    pass
+
+
+def _callee(ck: Check, fi: FuncInfo, call: ast.Call) -> Optional[FuncInfo]:
+    if isinstance(call.func, ast.Name):
+        return ck.repo.functions.get("%s.%s" % (fi.module.name, call.func.id))
+    return None
+
+
 class _Ret(Exception):
     def __init__(self, v: Any):
         self.v = v
@@ -77,8 +87,71 @@ def eval_body(ck: Check, fi: FuncInfo, stmts: List[ast.stmt], env: Dict[str, Any
             continue
         elif isinstance(st, ast.Pass):
             continue
+        elif isinstance(st, ast.Raise):
+            raise _Raised(ast.unparse(st)[:100])
+        elif isinstance(st, ast.Assert):
+            if not ck.repo.fold(st.test, fi.module, fi, env):
+                raise _Raised(ast.unparse(st)[:100])
+        elif isinstance(st, ast.Expr) and isinstance(st.value, ast.Call) and _callee(ck, fi, st.value) is not None:
+            # a helper called for its checks: run its body on the argument values
+            cf = _callee(ck, fi, st.value)
+            args = [ck.repo.fold(a, fi.module, fi, env) for a in st.value.args]        # type: ignore[union-attr]
+            if st.value.keywords or len(args) != len(cf.params):                        # type: ignore[union-attr]
+                raise AnalysisError("call of %s with keywords / defaults is outside the evaluated sublanguage" % cf.name)
+            try:
+                eval_body(ck, cf, func_body(cf), dict(zip(cf.params, args)))
+            except _Ret:
+                pass
         else:
             raise AnalysisError("get_block_subsidy uses a statement outside the evaluated sublanguage: %s" % type(st).__name__)
+
+
+def cut_constants(ck: Check, fi: FuncInfo, seen: Optional[Set[str]] = None) -> Tuple[Set[int], Set[int], Set[Tuple[int, int]]]:
+    """every positive constant something is floor-divided by, every constant something is compared with, every (C, k) of `x % C <op> k`,
+    in the function and the same-module functions it calls: the heights where its value can change are among their multiples /
+    neighbours (more cuts than needed are harmless; each cell is probed at both ends and in the middle)."""
+    seen = seen if seen is not None else set()
+    divisors: Set[int] = set()
+    cmps: Set[int] = set()
+    mods: Set[Tuple[int, int]] = set()
+    if fi.qualname in seen:
+        return divisors, cmps, mods
+    seen.add(fi.qualname)
+
+    def const(n: ast.AST) -> Any:
+        try:
+            return ck.repo.fold(n, fi.module, fi, {})
+        except AnalysisError:
+            return None
+    for n in ast.walk(fi.node):
+        if isinstance(n, ast.BinOp) and isinstance(n.op, (ast.FloorDiv, ast.Div)):
+            c = const(n.right)
+            if isinstance(c, int) and not isinstance(c, bool) and c > 0:
+                divisors.add(c)
+        elif isinstance(n, ast.BinOp) and isinstance(n.op, ast.RShift):
+            c = const(n.right)
+            if isinstance(c, int) and 0 < c < 64:
+                divisors.add(1 << c)
+        elif isinstance(n, ast.Compare):
+            parts = [n.left] + list(n.comparators)
+            for a, b in zip(parts, parts[1:]):
+                for x, other in ((a, b), (b, a)):
+                    c = const(x)
+                    if isinstance(c, int) and not isinstance(c, bool):
+                        if isinstance(other, ast.BinOp) and isinstance(other.op, ast.Mod):
+                            m_ = const(other.right)
+                            if isinstance(m_, int) and m_ > 0:
+                                mods.add((m_, c))
+                                continue
+                        cmps.add(c)
+        elif isinstance(n, ast.Call):
+            cf = _callee(ck, fi, n)
+            if cf is not None:
+                d2, c2, m2 = cut_constants(ck, cf, seen)
+                divisors |= d2
+                cmps |= c2
+                mods |= m2
+    return divisors, cmps, mods
 
 
 def height_uses(ck: Check, fi: FuncInfo, pname: str) -> Tuple[Set[int], Set[int], Set[Tuple[int, int]]]:
@@ -117,6 +190,12 @@ def height_uses(ck: Check, fi: FuncInfo, pname: str) -> Tuple[Set[int], Set[int]
                 if not isinstance(c, int):
                     raise AnalysisError("height compared with a non-integer")
                 cmps.add(c)
+            elif isinstance(p, ast.Call) and n in p.args and not p.keywords and _callee(ck, fi, p) is not None:
+                cf = _callee(ck, fi, p)
+                d2, c2, m2 = height_uses(ck, cf, cf.params[p.args.index(n)])       # type: ignore[union-attr]
+                divisors |= d2
+                cmps |= c2
+                mods |= m2
             else:
                 raise AnalysisError("get_block_subsidy uses `height` outside `height // C` / `height <op> C` (%s); the era partition "
                                     "cannot be derived" % ast.unparse(p) if p is not None else "?")
@@ -131,17 +210,26 @@ def r16_34(ck: Check) -> None:
     if len(fi.params) != 1:
         raise AnalysisError("get_block_subsidy should take exactly one parameter")
     pname = fi.params[0]
-    divisors, cmps, mods = height_uses(ck, fi, pname)
+    stateful = [n for n in ast.walk(fi.node) if isinstance(n, (ast.Global, ast.Nonlocal))]
+    construct = "get_block_subsidy is a function of the height alone (no state kept between calls)"
+    if stateful:
+        ck.violated("R16.4", construct, "it declares `%s %s`: what it returns for a height depends on the heights it was asked about before "
+                    "(a reorganisation or out-of-order validation across a halving gets another era's subsidy)"
+                    % ("global" if isinstance(stateful[0], ast.Global) else "nonlocal", ", ".join(stateful[0].names)),
+                    "%s:%d" % (fi.module.path, stateful[0].lineno))
+        return
+    ck.ok("R16.4", construct, "", fi.loc)
+    divisors, cmps, mods = cut_constants(ck, fi)
     if not divisors and not cmps and not mods:
-        raise AnalysisError("get_block_subsidy does not use its height parameter")
+        raise AnalysisError("get_block_subsidy contains no division, remainder or comparison with a constant: no height partition")
     cuts: Set[int] = {0, H_MAX + 1}
     for d in divisors:
         if (H_MAX // d) > 2_000_000:
-            raise AnalysisError("divisor %d makes more than 2,000,000 cells" % d)
+            continue        # (a small divisor that is not about eras; the probes inside each cell below would show a dependence)
         cuts.update(range(0, H_MAX + 1, d))
     for (c, k_) in mods:
         if (H_MAX // c) > 1_000_000:
-            raise AnalysisError("modulus %d makes more than 3,000,000 cells" % c)
+            continue
         for r in {0, k_ % c, (k_ + 1) % c}:
             cuts.update(range(r, H_MAX + 1, c))
     for c in cmps:
@@ -151,15 +239,27 @@ def r16_34(ck: Check) -> None:
     bounds = sorted(cuts)
     cells = [(bounds[i], bounds[i + 1]) for i in range(len(bounds) - 1)]
     values: List[int] = []
+    from ..engine.repo import FoldRaised
     for lo, hi in cells:
-        try:
-            eval_body(ck, fi, func_body(fi), {pname: lo})
-            raise AnalysisError("get_block_subsidy can fall off its end without returning (height %d)" % lo)
-        except _Ret as r:
-            v = r.v
+        probes = sorted({lo, (lo + hi) // 2, hi - 1})
+        got = []
+        for h in probes:
+            try:
+                done, v = ck.repo.eval_statements(fi, func_body(fi), {pname: h})
+            except FoldRaised as r2:
+                ck.violated("R16.4", "get_block_subsidy is defined (and zero after exhaustion) for every encodable height 0..2^32-1",
+                            "for height %d (cell [%d, %d)) it raises (%s): the schedule has no value there, and assembling or validating a block "
+                            "at such a height fails instead of yielding a subsidy of 0" % (h, lo, hi, str(r2)[:100]), fi.loc)
+                return
+            if not done:
+                raise AnalysisError("get_block_subsidy can fall off its end without returning (height %d)" % h)
+            got.append(v)
+        v = got[0]
         if not isinstance(v, int) or isinstance(v, bool):
             ck.violated("R16.4", "get_block_subsidy is integer-valued", "returns %r for heights [%d, %d)" % (v, lo, hi), fi.loc)
             return
+        if any(x != v for x in got):
+            raise AnalysisError("get_block_subsidy is not constant on the cell [%d, %d) of the derived partition (values %s at %s)" % (lo, hi, got, probes))
         values.append(v)
     ck.stats["era_cells"] = len(cells)
     where = fi.loc
